@@ -28,7 +28,19 @@ KINDS = ["sock", "piper", "pipew", "reg"]
 
 
 def attrs(o, case):
-    return {"op": o["op"].split()[0]}
+    """the kind of the object the failing operation refers to decides which finding a failure belongs to"""
+    kinds = {}
+    for l in case[1]:
+        f = l.split()
+        if f[0] == "obj":
+            kinds[f[1]] = f[2]
+    f = o["op"].split()
+    target = "-"
+    if f[0] == "start" and len(f) > 2:
+        target = kinds.get(f[2], "-")
+    elif f[0] in ("cancel", "close", "peer") and len(f) > 1:
+        target = kinds.get(f[1], "-")
+    return {"op": f[0], "target_kind": target}
 
 
 def rd(i):
